@@ -66,8 +66,8 @@ impl Property for C18 {
     }
     fn budget(&self, tier: Tier) -> Budget {
         match tier {
-            Tier::Quick => Budget { cases: 30_000, min_len: 6, max_len: 120 },
-            Tier::Thorough => Budget { cases: 1_000_000, min_len: 6, max_len: 160 },
+            Tier::Quick => Budget { cases: 150000, min_len: 6, max_len: 120 },
+            Tier::Thorough => Budget { cases: 2000000, min_len: 6, max_len: 160 },
         }
     }
 
